@@ -12,7 +12,7 @@ from pathlib import Path
 sys.path.insert(0, str(Path(__file__).resolve().parent))
 import common as C  # noqa: E402
 
-GEN_FILES = ["GenRules.v", "GenRegistry.v", "GenYaml.v", "GenConfig.v"]
+GEN_FILES = ["GenRules.v", "GenRegistry.v", "GenYaml.v", "GenConfig.v", "GenDag.v"]
 
 
 def current_hash():
@@ -41,10 +41,18 @@ def ensure_built(verbose=False):
             tr_out = out + err
             if rc != 0:
                 return dict(ok=False, stage="translate", log=tr_out, wall_s=time.time() - t0)
+            rc, out, err, _ = C.run([C.PY, str(C.VERIF / "tools" / "dagdump.py")], timeout=900)
+            tr_out += out + err
+            if rc != 0:
+                return dict(ok=False, stage="dagdump", log=tr_out, wall_s=time.time() - t0)
             stamp.write_text(h)
             regenerated = True
         mk = C.COQ / "Makefile"
         proj = C.COQ / "_CoqProject"
+        want = (C.COQ / "_CoqProject.in").read_text() + "".join(
+            f"gen/{p.name}\n" for p in sorted(C.GEN.glob("GenDag*.v")))
+        if not proj.exists() or proj.read_text() != want:
+            proj.write_text(want)
         if not mk.exists() or mk.stat().st_mtime < proj.stat().st_mtime:
             rc, out, err, _ = C.run(["coq_makefile", "-f", "_CoqProject", "-o", "Makefile"], cwd=str(C.COQ))
             if rc != 0:
